@@ -50,6 +50,28 @@ def Sent.consts : Sent → List (Nat × Nat)
   | .op1 _ a => a.consts
   | .op2 _ a b => a.consts ++ b.consts
 
+/-- no quantifier inside binds variable (vi, vs) -/
+def Sent.noBinder (vi vs : Nat) : Sent → Bool
+  | .atom _ _ => true
+  | .pred _ _ => true
+  | .quant _ vi' vs' b => !(vi' == vi && vs' == vs) && b.noBinder vi vs
+  | .op1 _ a => a.noBinder vi vs
+  | .op2 _ a b => a.noBinder vi vs && b.noBinder vi vs
+
+/-- every subsentence is in the vocabulary the logic interprets (nothing opaque inside) -/
+def Sent.interp (modal quantified : Bool) : Sent → Bool
+  | .atom _ _ => true
+  | .pred _ _ => true
+  | .quant _ _ _ b => quantified && b.interp modal quantified
+  | .op1 o a => (!o.isModal || modal) && a.interp modal quantified
+  | .op2 _ a b => a.interp modal quantified && b.interp modal quantified
+
+/-- what a quantifier rule needs of its target compound `Qx.body`: the body does not re-bind `x`
+    and contains nothing opaque (so that instantiation means what the semantics says) -/
+def Sent.quantOK (L : LogicData) : Sent → Bool
+  | .quant _ vi vs b => b.noBinder vi vs && b.interp L.modal L.quantified
+  | _ => true
+
 /-! ### template instantiation -/
 
 /-- inside `bind`: only the raw body and truth-functional structure -/
